@@ -38,6 +38,7 @@ class KindGen:
         self.d = d
         self.len_mode = len_mode   # write-only length harness: nested elements and leaf codecs constant
         self.depth = 0
+        self.needs_random_state = False
         self.count = count      # element count for Vec / set fields (0 or 1)
         self.alt = alt          # second constant for the constant dimensions
         self.veq_fns = {}       # type name -> fn text
@@ -76,7 +77,7 @@ class KindGen:
             self.notes.append("text fields constant")
             if "binrw_write_codepage_string" not in attrs:
                 raise Unsupported(f"String field {fname} without codepage writer")
-            return '"a".to_string()' if self.alt else "String::new()"
+            return "String::new()"   # text content is C10/C11; the stubbed reader returns the empty text
         if ty == "Ipv4Addr":
             return "std::net::Ipv4Addr::from(kani::any::<u32>())"
         m = re.match(r"Vec<(.+)>$", ty)
@@ -100,7 +101,11 @@ class KindGen:
             t = m.group(1)
             return f"insim_core::point::Point {{ x: {self.value(t, '', fname)}, y: {self.value(t, '', fname)}, z: {self.value(t, '', fname)} }}"
         if ty.startswith("IndexSet<") or ty == "PlcAllowedCarsSet":
-            raise Unsupported(f"{ty}: hash-set backed field (RandomState needs OS randomness: unsupported in Kani)")
+            # RandomState::new is stubbed with fixed keys (verif_random_state); inserting elements
+            # (SipHash + hashbrown) does not finish in CBMC, so hash sets are empty
+            self.notes.append("hash set empty")
+            self.needs_random_state = True
+            return "Default::default()"
         if ty == "GameVersion":
             raise Unsupported("GameVersion: float parsing/printing is out of CBMC's reach")
         # hand-written leaf types with their own obligations
@@ -156,7 +161,20 @@ class KindGen:
     def struct_value(self, name: str) -> str:
         it = self.d[name]
         parts = []
-        for f in self.struct_fields(name):
+        fields = self.struct_fields(name)
+        if any(not f.vis.startswith("pub") for f in fields):
+            # private fields (hash-set backed kinds): start from Default and assign the public ones
+            assigns = []
+            for f in fields:
+                if not f.vis.startswith("pub"):
+                    if f.ty.startswith("IndexSet<"):
+                        self.notes.append("hash set empty")
+                        self.needs_random_state = True
+                        continue
+                    raise Unsupported(f"private field {name}.{f.name}: {f.ty}")
+                assigns.append(f"v.{f.name} = {self.value(f.ty, f.attr_text(), f'{name}.{f.name}')};")
+            return f"{{ let mut v = <{name}>::default(); " + " ".join(assigns) + " v }"
+        for f in fields:
             expr = self.value(f.ty, f.attr_text(), f"{name}.{f.name}")
             # declared write-side assertions of the struct (representable range)
             parts.append(f"{f.name}: {expr}")
@@ -259,6 +277,34 @@ where
 
 fn verif_fmt_ok(_o: &mut dyn core::fmt::Write, _a: core::fmt::Arguments<'_>) -> core::fmt::Result {
     Ok(())
+}
+
+/// `RandomState::new()` reads OS randomness (a syscall Kani cannot model): fixed keys instead.
+#[allow(unsafe_code)]
+fn verif_random_state() -> std::hash::RandomState {
+    unsafe { core::mem::transmute::<(u64, u64), std::hash::RandomState>((0x0123_4567_89ab_cdef, 0x0f1e_2d3c_4b5a_6978)) }
+}
+
+/// Size contract of the fixed-width text reader (it reads `<[u8; SIZE]>`): consumes exactly
+/// SIZE bytes. The decoded text is not modelled (text conversion: C10/C11); harnesses that use
+/// this stub keep every text field empty.
+fn verif_parse_text_model<const SIZE: usize, R: std::io::Read + std::io::Seek>(
+    reader: &mut R,
+    _endian: insim_core::binrw::Endian,
+    _args: (bool,),
+) -> insim_core::binrw::BinResult<String> {
+    let _ = reader.seek(std::io::SeekFrom::Current(SIZE as i64))?;
+    Ok(String::new())
+}
+
+/// Size contract of the until-EOF text reader: consumes the rest of the frame.
+fn verif_parse_text_eof_model<R: std::io::Read + std::io::Seek>(
+    reader: &mut R,
+    _endian: insim_core::binrw::Endian,
+    _args: (bool,),
+) -> insim_core::binrw::BinResult<String> {
+    let _ = reader.seek(std::io::SeekFrom::End(0))?;
+    Ok(String::new())
 }
 
 /// every race length that has a wire value (InSim table; C15 proves the codec against it)
@@ -386,7 +432,8 @@ def gen_kind(d, variant, ty, magic, *, count, alt, props, tier, suffix):
     notes = sorted(set(g.notes))
     has_vec_note = f"element count fixed at {count}" if has_vec else None
     common = dict(variant=variant, ty=ty, magic=magic, it=it, val=val, eq=eq, assume_txt=assume_txt, notes=notes,
-                  bounded=has_vec_note, suffix=suffix, tier=tier)
+                  bounded=has_vec_note, suffix=suffix, tier=tier,
+                  rs_stub=("#[kani::stub(std::hash::RandomState::new, verif_random_state)]\n" if g.needs_random_state else ""))
     return common, g
 
 
@@ -399,8 +446,16 @@ INTRACTABLE_RT = {
 LEAF_TYPES = {"Vehicle", "Track", "ConInfo", "CimMode", "SmallType", "GameVersion"}
 
 
+MEASURED_SLOW = {
+    "Msl": "measured: the round trip with a 128-byte fixed text field does not finish in 600 s (96 bytes: 83 s)",
+    "Rip": "measured: two time fields + two enums + a 64-byte text field do not finish in 600 s",
+}
+
+
 def rt_intractable(d, ty, seen=None):
     """Reason why the full round trip of struct `ty` is out of CBMC's reach, or None."""
+    if seen is None and ty in MEASURED_SLOW:
+        return MEASURED_SLOW[ty]
     seen = seen or set()
     if ty in seen:
         return None
@@ -411,6 +466,8 @@ def rt_intractable(d, ty, seen=None):
     for f in it.fields:
         t = f.ty
         if t == "String":
+            if "binrw_parse_codepage_string" in f.attr_text():
+                continue    # tractable with the text reader known by its size contract (stub)
             return INTRACTABLE_RT["String"]
         if t.startswith("Vec<") or t.startswith("IndexSet<"):
             return INTRACTABLE_RT["Vec"]
@@ -431,6 +488,13 @@ def render_rt(c):
     stmt = (f"packet kind {variant} ({ty}, type {magic}): for ALL values of its integer / id / flag-word / bool / f32 / nibble fields "
             f"jointly{' (with ' + '; '.join(notes) + ')' if notes else ''}: the packet encodes; decoding the bytes succeeds, consumes "
             f"them completely and yields a field-by-field equal packet; re-encoding the decoded packet yields the identical bytes")
+    has_text = any(f.ty == "String" for f in it.fields)
+    stubs = ""
+    if has_text:
+        stmt += ("; every text field is empty and the text READER is replaced by a model of its size contract (fixed width: consumes "
+                 "exactly N bytes; until-EOF: consumes the rest) - text content is C10/C11")
+        stubs = ("#[kani::stub(insim_core::string::binrw_parse_codepage_string, verif_parse_text_model)]\n"
+                 "#[kani::stub(insim_core::string::binrw_parse_codepage_string_until_eof, verif_parse_text_eof_model)]\n")
     meta = [f"//@ id: {hname}", "//@ prop: C01", f"//@ tier: {c['tier']}",
             f"//@ functions: {it.file} <{ty} as BinWrite>::write_options; {it.file} <{ty} as BinRead>::read_options",
             f"//@ statement: {stmt}", "//@ covers: 1", "//@ timeout: 900"]
@@ -438,7 +502,7 @@ def render_rt(c):
 {chr(10).join(meta)}
 #[kani::proof]
 #[kani::stub(core::fmt::write, verif_fmt_ok)]
-fn {hname}() {{
+{stubs}{c['rs_stub']}fn {hname}() {{
     let p = {c['val']};
 {c['assume_txt']}    let mut w = Cursor::new(Vec::new());
     let r = p.write_le(&mut w);
@@ -474,9 +538,13 @@ def render_len(c, count_field=None, count=0):
             f"multiple of 4 bytes within 4..=1020" + (f"; the element-count byte equals the {count} element(s) that follow" if count_field else ""))
     meta = [f"//@ id: {hname}", "//@ prop: C03", f"//@ tier: {c['tier']}",
             f"//@ functions: {it.file} <{ty} as BinWrite>::write_options",
-            f"//@ statement: {stmt}", "//@ covers: 1", "//@ timeout: 600"]
+            f"//@ statement: {stmt}", "//@ covers: 1", f"//@ timeout: {600 if count < 10 else 1500}"]
     if c["bounded"]:
         meta.append(f"//@ bounded: {c['bounded']}")
+    # a packet with more elements than fit 1020 bytes is refused by Mode::encode_length (its
+    # contract, C03/verus): the per-kind obligation is then alignment and the count byte only
+    limit = ('    assert!(frame >= 4 && frame <= 1020, "frame length within 4..=1020");' if count < 10
+             else '    assert!(frame >= 4, "frame length at least 4");')
     cnt = ""
     if count_field is not None:
         cnt = f'    assert!(bytes[{count_field}] as usize == {count}, "the element-count byte equals the number of elements that follow");\n'
@@ -484,12 +552,12 @@ def render_len(c, count_field=None, count=0):
     # not constant-fold: bound it (unwinding assertions stay on, so the bound is checked)
     unwind = ""
     if any(re.search(r"pad_(after|before)\s*=\s*[^0-9\s]", f.attr_text()) for f in it.fields):
-        unwind = "#[kani::unwind(10)]\n"
+        unwind = f"#[kani::unwind({max(10, count + 6)})]\n"
     return hname, f"""
 {chr(10).join(meta)}
 #[kani::proof]
 #[kani::stub(core::fmt::write, verif_fmt_ok)]
-{unwind}fn {hname}() {{
+{unwind}{c['rs_stub']}fn {hname}() {{
     let p = {c['val']};
 {c['assume_txt']}    let mut w = Cursor::new(Vec::new());
     let r = p.write_le(&mut w);
@@ -497,7 +565,7 @@ def render_len(c, count_field=None, count=0):
     let bytes = w.into_inner();
     let frame = bytes.len() + 2;
     assert!(frame % 4 == 0, "frame length is a multiple of 4");
-    assert!(frame >= 4 && frame <= 1020, "frame length within 4..=1020");
+{limit}
 {cnt}    kani::cover!(r.is_ok(), "encoded");
     core::mem::forget(r);
     core::mem::forget(p);
@@ -550,7 +618,7 @@ def gen_kinds(repo: Path, prop: str, tier: str):
         else:
             uncovered.append(("C01", variant, why_rt))
         # ---- C03 frame length / count byte (write side only: all kinds whose value can be built)
-        counts = [0, 1, 2, 3] if has_vec else [0]
+        counts = [0, 1, 2, 3, 17, 40] if has_vec else [0]   # hash-set kinds (Mal, Ipb, Plc): empty set only
         if has_vec:
             el = next(re.match(r"Vec<(.+)>$", f.ty).group(1) for f in it.fields if re.match(r"Vec<", f.ty))
             eit = d.get(el)
@@ -558,7 +626,8 @@ def gen_kinds(repo: Path, prop: str, tier: str):
                 counts = [0, 1, 2]   # text-bearing elements: 3 elements do not finish (measured)
         for k in counts:
             try:
-                c, g = gen_kind(d, variant, ty, magic, count=k, alt=False, props=["C03"], tier="quick", suffix=f"n{k}")
+                c, g = gen_kind(d, variant, ty, magic, count=k, alt=False, props=["C03"],
+                                tier=("thorough" if k >= 40 else "quick"), suffix=f"n{k}")
             except Unsupported as e:
                 if k == 0:
                     uncovered.append(("C03", variant, str(e)))
